@@ -61,6 +61,81 @@ theorem tproxy_v6 (le : Bool) (port : Nat) (flow : Bytes) (gs : List Nat) (scope
         C05.TPROXY_IPV6_ORIGDSTADDR, C05.TPROXY_V6_START, C05.TPROXY_V6_LENGTH]
       simp [rd16, C05.AF_INET6, C05.AF_INET, hh]
 
+/-! ### tproxy `recv_udp`: what an `ok` result can be -/
+
+theorem tproxyOne_ok_inv (le : Bool) (wantFam start length : Nat) (data : Bytes) (ip : Text) (port : Nat)
+    (h : tproxyOne le wantFam start length data = .ok ip port) :
+    ∃ f0 f1 p1 p0, data.take 4 = [f0, f1, p1, p0] ∧ rd16 le f0 f1 = wantFam ∧
+      port = htons le (rd16 le p1 p0) ∧
+      inetNtop wantFam ((data.drop start).take length) = .ok ip := by
+  unfold tproxyOne at h
+  split at h
+  · next f0 f1 p1 p0 htake =>
+    simp only at h
+    split at h
+    · next hfam =>
+      split at h
+      · next ip' hn =>
+        injection h with h1 h2
+        subst h1
+        exact ⟨f0, f1, p1, p0, htake, hfam, h2.symm, by rw [← hfam]; exact hn⟩
+      · cases h
+    · cases h
+  · cases h
+
+theorem inetNtop_v4_inv (packed : Bytes) (ip : Text) (h : inetNtop Gen.C05.AF_INET packed = .ok ip) :
+    ∃ a b c d, packed = [a, b, c, d] ∧ ip = strV4 a b c d := by
+  unfold inetNtop at h
+  simp only [↓reduceIte] at h
+  split at h
+  · next a b c d => injection h with h; exact ⟨a, b, c, d, rfl, h.symm⟩
+  · cases h
+
+theorem inetNtop_v6_inv (packed : Bytes) (ip : Text) (h : inetNtop Gen.C05.AF_INET6 packed = .ok ip) :
+    packed.length = 16 ∧ ip = ntopV6 (hextets packed) := by
+  unfold inetNtop at h
+  have hne : Gen.C05.AF_INET6 ≠ Gen.C05.AF_INET := by decide
+  simp only [hne, ↓reduceIte] at h
+  split at h
+  · next hl => injection h with h; exact ⟨hl, h.symm⟩
+  · cases h
+
+/-- What the first recognised item of an ancillary list says, read at the real offsets of
+`sockaddr_in` (address at 4..8) / `sockaddr_in6` (flowinfo at 4..8, address at 8..24). -/
+def DecodesTo (le : Bool) (c : Cmsg) (ip : Text) (port : Nat) : Prop :=
+  ∃ f0 f1 p1 p0, c.data.take 4 = [f0, f1, p1, p0] ∧ port = htons le (rd16 le p1 p0) ∧
+    ((c.level = 0 ∧ c.type = 20 ∧ rd16 le f0 f1 = Gen.C05.AF_INET ∧
+        ∃ a b c' d, (c.data.drop 4).take 4 = [a, b, c', d] ∧ ip = strV4 a b c' d) ∨
+     (c.level = 41 ∧ c.type = 74 ∧ rd16 le f0 f1 = Gen.C05.AF_INET6 ∧
+        ((c.data.drop 8).take 16).length = 16 ∧ ip = ntopV6 (hextets ((c.data.drop 8).take 16))))
+
+theorem tproxy_ok_inv (le : Bool) (cs : List Cmsg) (ip : Text) (port : Nat)
+    (h : tproxyRecvUdp le cs = .ok ip port) :
+    ∃ pre c post, cs = pre ++ c :: post ∧ (∀ n ∈ pre, n.Foreign) ∧ DecodesTo le c ip port := by
+  induction cs with
+  | nil => simp [tproxyRecvUdp] at h
+  | cons c rest ih =>
+    unfold tproxyRecvUdp at h
+    by_cases h4 : c.level = Gen.C05.SOL_IP ∧ c.type = Gen.C05.TPROXY_IP_ORIGDSTADDR
+    · rw [if_pos h4] at h
+      obtain ⟨f0, f1, p1, p0, ht, hf, hp, hn⟩ := tproxyOne_ok_inv _ _ _ _ _ _ _ h
+      obtain ⟨a, b, c', d, hpk, hip⟩ := inetNtop_v4_inv _ _ hn
+      refine ⟨[], c, rest, rfl, by simp, f0, f1, p1, p0, ht, hp, Or.inl ⟨h4.1, h4.2, hf, a, b, c', d, hpk, hip⟩⟩
+    · rw [if_neg h4] at h
+      by_cases h6 : c.level = Gen.C05.TPROXY_SOL_IPV6 ∧ c.type = Gen.C05.TPROXY_IPV6_ORIGDSTADDR
+      · rw [if_pos h6] at h
+        obtain ⟨f0, f1, p1, p0, ht, hf, hp, hn⟩ := tproxyOne_ok_inv _ _ _ _ _ _ _ h
+        obtain ⟨hl, hip⟩ := inetNtop_v6_inv _ _ hn
+        refine ⟨[], c, rest, rfl, by simp, f0, f1, p1, p0, ht, hp, Or.inr ⟨h6.1, h6.2, hf, hl, hip⟩⟩
+      · rw [if_neg h6] at h
+        obtain ⟨pre, c2, post, hcs, hpre, hd⟩ := ih h
+        refine ⟨c :: pre, c2, post, by simp [hcs], ?_, hd⟩
+        intro n hn
+        simp only [List.mem_cons] at hn
+        rcases hn with rfl | hn
+        · exact ⟨h4, h6⟩
+        · exact hpre n hn
+
 /-! ### `onaccept_udp` over a sequence of datagrams -/
 
 theorem dataPayloads_append (a b : List UdpEv) : dataPayloads (a ++ b) = dataPayloads a ++ dataPayloads b := by
@@ -68,17 +143,92 @@ theorem dataPayloads_append (a b : List UdpEv) : dataPayloads (a ++ b) = dataPay
   | nil => rfl
   | cons e r ih => cases e <;> simp [dataPayloads, ih]
 
+theorem dataPayloads_closes (t : UdpTable) (now : Nat) : dataPayloads (expireUdp now t).2 = [] := by
+  unfold expireUdp
+  simp only
+  induction (t.filter fun e => decide (e.deadline < now)) with
+  | nil => rfl
+  | cons e r ih => simpa [dataPayloads] using ih
+
 theorem onacceptUdp_payloads (tbl : UdpTable) (fam src : Nat) (ip : Text) (port : Nat) (data : Bytes)
-    (fresh : Nat) (hasc : isAscii ip = true) (hf : fresh ≠ 0) :
-    dataPayloads (onacceptUdp tbl fam src ip (Int.ofNat port) data (some fresh)).2 =
+    (fresh now : Nat) (hasc : isAscii ip = true) (hf : fresh ≠ 0) :
+    dataPayloads (onacceptUdp tbl fam src ip (Int.ofNat port) data (some fresh) now).2 =
       [encodeUdp ip (Int.ofNat port) data] := by
   unfold onacceptUdp
   cases tbl.find src with
-  | some c => simp [hasc, dataPayloads]
+  | some c => simp [hasc, dataPayloads, dataPayloads_closes]
   | none =>
     cases fresh with
     | zero => exact absurd rfl hf
-    | succ n => simp [hasc, dataPayloads]
+    | succ n => simp [hasc, dataPayloads, dataPayloads_closes]
+
+/-! ### the association table: refresh before the sweep -/
+
+theorem find_set (t : UdpTable) (src chan dl : Nat) : (t.set src chan dl).find src = some chan := by
+  induction t with
+  | nil => simp [UdpTable.set, UdpTable.find]
+  | cons e r ih =>
+    by_cases h : e.src = src
+    · simp [UdpTable.set, UdpTable.find, h]
+    · simp [UdpTable.set, UdpTable.find, h, ih]
+
+/-- First entry for a source: its channel and deadline. -/
+def findEntry (t : UdpTable) (src : Nat) : Option (Nat × Nat) :=
+  match t with
+  | [] => none
+  | e :: r => if e.src = src then some (e.chan, e.deadline) else findEntry r src
+
+theorem findEntry_set (t : UdpTable) (src chan dl : Nat) :
+    findEntry (t.set src chan dl) src = some (chan, dl) := by
+  induction t with
+  | nil => simp [UdpTable.set, findEntry]
+  | cons e r ih =>
+    by_cases h : e.src = src
+    · simp [UdpTable.set, findEntry, h]
+    · simp [UdpTable.set, findEntry, h, ih]
+
+theorem find_filter_keep (t : UdpTable) (src c dl now : Nat)
+    (h : findEntry t src = some (c, dl)) (hk : ¬ dl < now) :
+    UdpTable.find (t.filter fun e => !(decide (e.deadline < now))) src = some c := by
+  induction t with
+  | nil => simp [findEntry] at h
+  | cons e r ih =>
+    by_cases hs : e.src = src
+    · simp only [findEntry, hs, ↓reduceIte, Option.some.injEq, Prod.mk.injEq] at h
+      obtain ⟨h1, h2⟩ := h
+      have hk' : ¬ e.deadline < now := by rw [h2]; exact hk
+      simp [List.filter, hk', UdpTable.find, hs, h1]
+    · simp only [findEntry, hs, ↓reduceIte] at h
+      have := ih h
+      by_cases hd : e.deadline < now
+      · simpa [List.filter, hd] using this
+      · simpa [List.filter, hd, UdpTable.find, hs] using this
+
+/-- After `onaccept_udp` handled a datagram from `src` (free id available, ASCII address), the
+association of `src` is in the table — on the channel the DATA frame used — whatever the
+clock says and whatever else expired in the same call. -/
+theorem onacceptUdp_keeps (tbl : UdpTable) (fam src : Nat) (ip : Text) (port : Int) (data : Bytes)
+    (fresh now : Nat) (hasc : isAscii ip = true) (hf : fresh ≠ 0) :
+    ∃ c, (onacceptUdp tbl fam src ip port data (some fresh) now).1.find src = some c ∧
+      UdpEv.data c (encodeUdp ip port data) ∈ (onacceptUdp tbl fam src ip port data (some fresh) now).2 ∧
+      (∀ c', tbl.find src = some c' → c = c') := by
+  unfold onacceptUdp
+  cases hfind : tbl.find src with
+  | some c =>
+    refine ⟨c, ?_, ?_, ?_⟩
+    · simp only [hasc, ↓reduceIte, expireUdp]
+      exact find_filter_keep _ src c (now + Gen.C05.UDP_TIMEOUT) now (findEntry_set tbl src c _) (by omega)
+    · simp [hasc]
+    · intro c' h; injection h
+  | none =>
+    cases fresh with
+    | zero => exact absurd rfl hf
+    | succ n =>
+      refine ⟨n + 1, ?_, ?_, ?_⟩
+      · simp only [hasc, ↓reduceIte, expireUdp]
+        exact find_filter_keep _ src (n + 1) (now + Gen.C05.UDP_TIMEOUT) now (findEntry_set tbl src _ _) (by omega)
+      · simp [hasc]
+      · intro c' h; cases h
 
 /-! ### pf: text of the dialogue -/
 
